@@ -256,6 +256,10 @@ def elementwise(ex, state, operands, line):
         if isinstance(o, (SArr, SNum)):
             cx = z3.Or(cx, o.cplx)
     res = new_arr(state, shape, z3.simplify(cx))
+    # ufuncs keep the memory layout of their operands: C-contiguous only if every array operand is (otherwise unknown)
+    if arrs:
+        allc = z3.simplify(z3.And(*[a.contig for a in arrs]))
+        res.contig = allc if z3.is_true(allc) else z3.If(allc, z3.BoolVal(True), fresh('ct', 'bool'))
     # scaling a descending non-negative vector by a positive scalar (s / s[0]) keeps the order
     first = operands[0]
     if isinstance(first, SArr) and getattr(first, 'descending_nonneg', False) and all(
@@ -286,6 +290,7 @@ def set_roles(a, roles):
 def conj(ex, state, a, line):
     a = need_rank(ex, state, a, line)
     r = new_arr(state, a.shape, a.cplx)
+    r.contig = z3.If(a.contig, z3.BoolVal(True), fresh('ct', 'bool'))      # a ufunc: the layout of the operand is kept
     ro = roles_of(a)
     if ro is not None:
         set_roles(r, [ROLE_CONJ.get(x, x) if x is not None else None for x in ro])
@@ -333,7 +338,8 @@ def reshape(ex, state, a, newshape, line):
     u = fresh('rv', 'bool')
     fb = state.alloc()
     buf = z3.If(a.contig, a.buf, z3.If(u, a.buf, fb))
-    res = SArr(newshape, a.cplx, buf, True, kind=a.kind, own=False)
+    # a reshaped contiguous array is a contiguous view; otherwise NumPy returns a view with other strides or a contiguous copy
+    res = SArr(newshape, a.cplx, buf, z3.If(a.contig, z3.BoolVal(True), fresh('ct', 'bool')), kind=a.kind, own=False)
     # ghost: (m x k) with orthonormal columns, m = r*p*q  ->  left-orthonormal core (r, p, q, k); rows analogously
     if len(a.shape) == 2 and len(newshape) == 4:
         res.flags['lorth'] = z3.And(a.flags['isocols'], newshape[3] == a.shape[1])
@@ -462,9 +468,11 @@ def einsum(ex, state, subscripts, operands, line):
         cplx = z3.Or(cplx, a.cplx)
         for ch, n in zip(sub, a.shape):
             if ch in dim:
-                ex.ctx.oblige(state, 'einsum-shape', line, dim[ch] == n, 'axes labelled %r have different lengths' % ch)
+                # NumPy broadcasts axes of length 1 in einsum
+                ex.ctx.oblige(state, 'einsum-shape', line, z3.Or(dim[ch] == n, dim[ch] == 1, zi(n) == 1), 'axes labelled %r have different lengths' % ch)
+                dim[ch] = z3.simplify(z3.If(dim[ch] == 1, zi(n), dim[ch]))
             else:
-                dim[ch] = n
+                dim[ch] = zi(n)
     for ch in out:
         if ch not in dim:
             ex.ctx.oblige(state, 'einsum-output', line, False, 'output letter %r does not occur in the inputs' % ch)
